@@ -4,6 +4,10 @@ from ..engines import sizecheck as SC
 
 
 def run(ctx):
+    # language-level slips in the modules the property is anchored in (engine Y)
+    from ..engines import gotchas as GY
+    GY.run(ctx, ('strategies.rule', 'strategies.strategy', 'strategies.constructor.cartesian', 'strategies.constructor.disjoint', 'rule_db.forest'))
+    ctx.floor("Y", 1)
     K = 3 if ctx.tier == "quick" else 6
     alias_k = 3 if ctx.tier == "quick" else 5
     ctx.extra["explanation"] = (
